@@ -153,7 +153,7 @@ def _shift(tree, depth_to_shift, off):
 
 def _random(seed, tier):
     rng = random.Random(seed)
-    nrand = 6000 if tier == "quick" else 250000
+    nrand = 6000 if tier == "quick" else 150000
     for i in range(nrand):
         op = OPS[i % 6]
         k = rng.choice([0, 0, 0, 1, 1, 2])
@@ -162,6 +162,7 @@ def _random(seed, tier):
         d = rng.choice([0, 0, 0, 1])
         dflt = rng.choice([0, 0, 7])
         n = rng.choice([3, 5, 8, 12]) if tier == "quick" else rng.choice([3, 5, 8, 12, 20, 40])
+        n = min(n, {1: 40, 2: 12, 3: 6, 4: 4}[k + 1 + d])          # keep deep trees small
         t = H.gen_tree(rng, k + 1 + d, n, (1, 2, -3, 7, 0), dflt)
         c = _base(op, t, d=d, k=k, dflt=dflt, pre=rng.choice([0, 0, 1, 2, 4]), post=rng.choice([0, 0, 1, 3]),
                   rel=rng.random() < 0.3, **_rand_params(rng, op, n))
